@@ -308,6 +308,24 @@ pub fn known_sigs_for(prop: &str) -> Vec<String> {
 // ---------------------------------------------------------------------------------------------
 // worker
 
+/// path of the same binary built with the `dbg` profile (debug assertions, overflow and UB checks on)
+pub fn dbg_twin(exe: &Path) -> Option<PathBuf> {
+    let name = exe.file_name()?;
+    let dir = exe.parent()?; // .../target/release
+    if dir.file_name()?.to_str()? != "release" {
+        return None;
+    }
+    let p = dir.parent()?.join("dbg").join(name);
+    if p.exists() {
+        Some(p)
+    } else {
+        None
+    }
+}
+pub fn is_dbg_build() -> bool {
+    cfg!(debug_assertions)
+}
+
 pub fn seed_from_env() -> u64 {
     std::env::var("VERIF_SEED").ok().and_then(|s| s.trim().parse::<u64>().ok()).unwrap_or(0)
 }
@@ -318,13 +336,35 @@ fn work_dir() -> PathBuf {
     p
 }
 
+thread_local! {
+    static SWEEP_CUR: RefCell<Option<(std::fs::File, PathBuf)>> = RefCell::new(None);
+}
+
+/// A systematic sweep notes the item it is about to execute, so that a worker killed by a signal
+/// can be reproduced by the parent.
+pub fn sweep_note(item: &Value) {
+    SWEEP_CUR.with(|c| {
+        if let Some((f, _)) = c.borrow_mut().as_mut() {
+            use std::io::Seek;
+            let text = item.to_string();
+            let _ = f.seek(std::io::SeekFrom::Start(0));
+            let _ = f.set_len(0);
+            let _ = f.write_all(text.as_bytes());
+        }
+    });
+}
+
 pub fn worker_main(eng: &dyn Engine, tier: Tier, seed: u64, idx: u32, nworkers: u32) -> Value {
     install_quiet_panic_hook();
     let prop = eng.prop();
     let cases = eng.cases(tier);
     let cur_path = work_dir().join(format!("{prop}.{idx}.cur"));
     let t0 = Instant::now();
+    let sweep_path = work_dir().join(format!("{prop}.{idx}.sweepcur"));
+    SWEEP_CUR.with(|c| *c.borrow_mut() = std::fs::File::create(&sweep_path).ok().map(|f| (f, sweep_path.clone())));
     let sweep = eng.sweep(tier, idx, nworkers);
+    SWEEP_CUR.with(|c| *c.borrow_mut() = None);
+    let _ = std::fs::remove_file(&sweep_path);
 
     struct Acc {
         evals: u64,
@@ -422,6 +462,7 @@ pub fn worker_main(eng: &dyn Engine, tier: Tier, seed: u64, idx: u32, nworkers: 
     let _ = std::fs::remove_file(&cur_path);
     let mut res = json!({
         "idx": idx,
+        "build": if is_dbg_build() { "dbg" } else { "release" },
         "evaluations": a.evals,
         "stats": a.stats,
         "samples": a.samples.iter().map(|b| json!({"bytes_hex": hex(b), "decoded": eng.describe(b)})).collect::<Vec<_>>(),
@@ -518,8 +559,13 @@ pub fn check_main(eng: &dyn Engine, tier: Tier) -> i32 {
 
     // 2. workers
     let mut children = vec![];
+    let dbg_exe = dbg_twin(&exe);
     for idx in 0..nworkers {
-        let child = Command::new(&exe)
+        let use_exe = match (&dbg_exe, idx % 2) {
+            (Some(d), 1) => d.clone(),
+            _ => exe.clone(),
+        };
+        let child = Command::new(&use_exe)
             .args(["worker", prop, tier.name(), &seed.to_string(), &idx.to_string(), &nworkers.to_string()])
             .stdout(Stdio::piped())
             .stderr(Stdio::piped())
@@ -557,12 +603,31 @@ pub fn check_main(eng: &dyn Engine, tier: Tier) -> i32 {
                 // died: try to reproduce on the case it was running
                 let cur = work_dir().join(format!("{prop}.{idx}.cur"));
                 let mut reproduced = false;
+                let swp = work_dir().join(format!("{prop}.{idx}.sweepcur"));
+                if let Ok(text) = std::fs::read_to_string(&swp) {
+                    if let Ok(item) = serde_json::from_str::<Value>(&text) {
+                        let body = json!({"property": prop, "engine": "sweep", "seed": seed, "build": if idx % 2 == 1 && dbg_exe.is_some() { "dbg" } else { "release" }, "item": item, "failure": format!("worker process died ({st}) while executing this item of the systematic part")});
+                        let path = write_replay(prop, &format!("sweepcrash-{idx}"), &body);
+                        let o = Command::new(&exe).args(["replay", &path]).stdout(Stdio::null()).stderr(Stdio::null()).status();
+                        if let Ok(o) = o {
+                            if o.code().is_none() || o.code() == Some(1) {
+                                reproduced = true;
+                                if eng.crash_is_violation() || o.code() == Some(1) {
+                                    violations.push((format!("process died ({st}) while executing an item of the systematic part; reproduces"), path));
+                                } else {
+                                    inconclusive.push(format!("worker {idx} died ({st}) in the systematic part; reproduces but a crash is not a violation of {prop}"));
+                                }
+                            }
+                        }
+                    }
+                    let _ = std::fs::remove_file(&swp);
+                }
                 if let Ok(data) = std::fs::read(&cur) {
                     if data.len() >= 4 {
                         let n = u32::from_le_bytes([data[0], data[1], data[2], data[3]]) as usize;
                         if data.len() >= 4 + n {
                             let bytes = &data[4..4 + n];
-                            let body = json!({"property": prop, "engine": "proptest", "seed": seed, "bytes_hex": hex(bytes), "decoded": eng.describe(bytes), "failure": format!("worker process died ({st})")});
+                            let body = json!({"property": prop, "engine": "proptest", "seed": seed, "build": if idx % 2 == 1 && dbg_exe.is_some() { "dbg" } else { "release" }, "bytes_hex": hex(bytes), "decoded": eng.describe(bytes), "failure": format!("worker process died ({st})")});
                             let path = write_replay(prop, &format!("crash-{idx}"), &body);
                             let o = Command::new(&exe).args(["replay", &path]).stdout(Stdio::null()).stderr(Stdio::null()).status();
                             if let Ok(o) = o {
@@ -665,7 +730,7 @@ pub fn check_main(eng: &dyn Engine, tier: Tier) -> i32 {
             let _ = std::fs::remove_file(&hp);
         }
         if let Some(f) = r.get("failure") {
-            let body = json!({"property": prop, "engine": "proptest", "seed": seed, "bytes_hex": f["bytes_hex"], "decoded": f["decoded"], "failure": f["all_messages"]});
+            let body = json!({"property": prop, "engine": "proptest", "seed": seed, "build": r["build"], "bytes_hex": f["bytes_hex"], "decoded": f["decoded"], "failure": f["all_messages"]});
             let path = write_replay(prop, &format!("w{idx}"), &body);
             violations.push((f["message"].as_str().unwrap_or("").to_string(), path));
         }
@@ -703,7 +768,7 @@ pub fn check_main(eng: &dyn Engine, tier: Tier) -> i32 {
             if let Some(a) = sw["viol"].as_array() {
                 for (j, v) in a.iter().enumerate() {
                     if j < 3 {
-                        let body = json!({"property": prop, "engine": "sweep", "seed": seed, "item": v["item"], "failure": v["message"]});
+                        let body = json!({"property": prop, "engine": "sweep", "seed": seed, "build": r["build"], "item": v["item"], "failure": v["message"]});
                         let path = write_replay(prop, &format!("sweep{idx}-{j}"), &body);
                         violations.push((v["message"].as_str().unwrap_or("").to_string(), path));
                     }
@@ -734,6 +799,7 @@ pub fn check_main(eng: &dyn Engine, tier: Tier) -> i32 {
         "generated_distinct_nontrivial": hashes.len(),
         "event_histogram": hist,
         "workers": nworkers,
+        "workers_on_build_with_debug_assertions_and_ub_checks": if dbg_exe.is_some() { nworkers / 2 } else { 0 },
         "regression_cases_replayed": regress_run,
         "known_findings_observed": known_seen,
         "alarms_of_other_properties_seen_and_ignored_here": other,
@@ -806,6 +872,19 @@ pub fn replay_main(lookup: &dyn Fn(&str) -> Option<Box<dyn Engine>>, path: &str)
         eprintln!("cannot parse {path}");
         return 2;
     };
+    if v["build"] == "dbg" && !is_dbg_build() {
+        // found by the build with debug assertions: replay it there
+        if let Some(d) = std::env::current_exe().ok().and_then(|e| dbg_twin(&e)) {
+            let st = Command::new(d).args(["replay", path]).status();
+            return match st.map(|s| s.code()) {
+                Ok(Some(c)) => c,
+                _ => {
+                    println!("VIOLATION property={} replay={path}", v["property"].as_str().unwrap_or(""));
+                    1
+                }
+            };
+        }
+    }
     let prop = v["property"].as_str().unwrap_or("");
     let Some(eng) = lookup(prop) else {
         eprintln!("no engine for {prop} in this binary");
